@@ -214,10 +214,10 @@ def fresh(src, style):
 def gen(tier, rng, boost=1):
     quick = tier == "quick"
     pool = [(s if s.startswith("@use") or "math." not in s else s, "-") for s in ATTACKS]
-    progs = [model_program(rng) for _ in range((60 if quick else 300) * boost)]
-    spec = [(s, "-") for s in spec_inputs(rng, (150 if quick else 1000) * boost)]
+    progs = [model_program(rng) for _ in range((50 if quick else 300) * boost)]
+    spec = [(s, "-") for s in spec_inputs(rng, (80 if quick else 1000) * boost)]
     # modelled histories: every source has a term
-    for _ in range((20 if quick else 60) * boost):
+    for _ in range((14 if quick else 60) * boost):
         n = rng.randint(1, 50)
         hs = [rng.choice(progs) for _ in range(n)]
         mode, th = rng.choice([("seq", 1), ("par", 16), ("par", rng.randint(2, 8))])
@@ -229,7 +229,7 @@ def gen(tier, rng, boost=1):
         yield Case(hline("seq", 1, style, "-", [s for s, _ in pool]), "attacks-seq")
         yield Case(hline("seq", 1, style, "-", [s for s, _ in pool + pool[::-1]]), "attacks-seq")
         yield Case(hline("par", 16, style, "-", [s for s, _ in pool]), "attacks-par16")
-    for _ in range((25 if quick else 120) * boost):
+    for _ in range((16 if quick else 120) * boost):
         n = rng.randint(1, 50)
         hs = [rng.choice(allp if rng.random() < 0.7 else pool) for _ in range(n)]
         if rng.random() < 0.3 and n > 2:      # A, B, A patterns
